@@ -284,7 +284,7 @@ def _run_unit(job):
             r = discharge(ob, want_smt=(i % 37 == 0))
             r["unit"] = name
             out["results"].append(r)
-            if ob.meta.get("kind") in ("post", "exit", "raise") and r["result"] == "unsat":
+            if ob.meta.get("kind") in ("post", "exit", "raise", "yield") and r["result"] == "unsat":
                 c = canary(ob)
                 out["canaries"]["checked"] += 1
                 if c == "unsat":
